@@ -349,7 +349,7 @@ class Pkg(object):
         return self._mod
 
     def __getattr__(self, name):
-        if name.startswith('_'):
+        if name.startswith('__') or name in ('_symbolic', '_rel', '_mod'):
             raise AttributeError(name)
         m = self._module()
         if hasattr(m, name) and not isinstance(getattr(m, name), type(os)):
